@@ -69,7 +69,11 @@ def arith_formats(tier):
     return out
 
 
-def apply_op(op, x, y):
+def apply_op(op, x, y, route='op', P=None):
+    if route == 'func':          # the functions of fxpmath.functions (default method 'raw')
+        return getattr(P.functions, op)(x, y)
+    if route == 'np':            # NumPy ufuncs dispatched through __array_ufunc__
+        return getattr(P.np, {'add': 'add', 'sub': 'subtract', 'mul': 'multiply'}[op])(x, y)
     if op == 'add': return x + y
     if op == 'sub': return x - y
     if op == 'mul': return x * y
@@ -105,6 +109,11 @@ class ArithOptimal(Contract):
                             shapes += [([2], [2]), ([2], [])]
                         for shx, shy in shapes:
                             yield dict(op=op, x=list(x), y=list(y), method=method, shx=shx, shy=shy)
+                        if method == 'raw':
+                            # the same operation through fxpmath.functions, through the NumPy ufunc, and with a class-wide template
+                            # of the opposite signedness installed (results are then built from a copy of the template and resized)
+                            for route in ('func', 'np', 'template'):
+                                yield dict(op=op, x=list(x), y=list(y), method=method, shx=[], shy=[], route=route)
                         # integer-typed operands (vdtype int: objects built from ints with n_frac <= 0); the value method computes on them
                         if method == 'repr' and (x[2] <= 0 or y[2] <= 0):
                             yield dict(op=op, x=list(x), y=list(y), method=method, shx=[], shy=[], vint=True)
@@ -126,7 +135,14 @@ class ArithOptimal(Contract):
                      vdtype=int if (cfg.get('vint') and fy <= 0) else float)
         bx, by = dict(x.__dict__), dict(y.__dict__)
         vx0, vy0 = list(elems(x.val)), list(elems(y.val))
-        z = apply_op(cfg['op'], x, y)
+        route = cfg.get('route', 'op')
+        if route == 'template':
+            S_res = fmt_policy('optimal', cfg['op'], tuple(cfg['x']), tuple(cfg['y']))[0]
+            P.Fxp.template = make_fxp(P, not S_res, 7, 1, codes=[0], shape=(), vdtype=float)
+        try:
+            z = apply_op(cfg['op'], x, y, route if route != 'template' else 'op', P)
+        finally:
+            P.Fxp.template = None
         unchanged = all(x.__dict__[k] is bx[k] for k in bx) and all(y.__dict__[k] is by[k] for k in by) \
             and same_elems(elems(x.val), vx0) and same_elems(elems(y.val), vy0)
         sep = (z is not x and z is not y and z.config is not x.config and z.config is not y.config and z.status is not x.status
@@ -204,7 +220,7 @@ class ArithImposed(Contract):
     allowed_exceptions = ('ValueError',)
     props = {'format': ['C08', 'C02'], 'code_eq_Q': ['C08'], 'flag_overflow': ['C08', 'C04'], 'flag_underflow': ['C08', 'C04'],
              'returns_out': ['C08'], 'in_range': ['C02'], 'governing_config': ['C08'], 'operands_unchanged': ['C20'],
-             'separate_state': ['C20'], 'no_exception': ['C08'], 'inaccuracy_propagates': ['C04'], 'rejects_signed_into_unsigned': ['C08']}
+             'separate_state': ['C20'], 'no_exception': ['C08'], 'inaccuracy_propagates': ['C04'], 'flag_inaccuracy': ['C04', 'C08'], 'rejects_signed_into_unsigned': ['C08']}
 
     def configs(self, tier):
         fm = imposed_formats(tier)
@@ -241,8 +257,8 @@ class ArithImposed(Contract):
     def inputs(self, cfg, D):
         sx, wx, fx = cfg['x']; sy, wy, fy = cfg['y']
         d = {'cx': codes_in(D, 'cx', 1, sx, wx), 'cy': codes_in(D, 'cy', 1, sy, wy), 'ix': D.bool('inacc_x'), 'iy': D.bool('inacc_y')}
-        if cfg['target'] and cfg['target'][0] == 'out':
-            d['st_out'] = sym_status(D, 'out')
+        if cfg['target']:
+            d['st_out'] = sym_status(D, 'out')      # out: sticky flags of the receiving object; out_like: flags of the template (must NOT be inherited)
         return d
 
     def run(self, cfg, P, inp):
@@ -300,6 +316,9 @@ class ArithImposed(Contract):
         out['flag_overflow'] = Iff(B(st['overflow']), Or(R > hi, B(o0['overflow']) if o0 else False))
         out['flag_underflow'] = Iff(B(st['underflow']), Or(R < lo, B(o0['underflow']) if o0 else False))
         out['inaccuracy_propagates'] = Implies(Or(B(inp['ix']), B(inp['iy'])), B(st['inaccuracy']))
+        # the inaccuracy flag is exact: raised iff an operand carried it, the stored value differs from the exact result,
+        # or (out=) the receiving object already carried it
+        out['flag_inaccuracy'] = Iff(B(st['inaccuracy']), Or(B(inp['ix']), B(inp['iy']), Not(eq(cz, ex)), B(o0['inaccuracy']) if o0 else False))
         return out
 
     def skip(self, cfg):
@@ -424,6 +443,8 @@ class ArithWide(ArithOptimal):
                     if skip_unsafe and not f7_safe(op, x, y):
                         continue
                     yield dict(op=op, x=list(x), y=list(y), method='raw', shx=[], shy=[])
+                    if k % 4 == 0:
+                        yield dict(op=op, x=list(x), y=list(y), method='raw', shx=[], shy=[], route=('func', 'np')[(k // 4) % 2])
                     if 'F21' not in open_findings() and k % 5 == 0:
                         # open finding F21: the value ('repr') method computes on float64 / int64 values
                         yield dict(op=op, x=list(x), y=list(y), method='repr', shx=[], shy=[], vint=bool(k % 2))
